@@ -342,9 +342,39 @@ fn check<const N: usize>(case: &Case, obs: &mut Obs) -> PropResult {
 	Ok(())
 }
 
+/// the convenience constructors of two-namespace sets must answer like remapper_a/b(0, 1) (dukenest and the jar
+/// remapping of the build go through them)
+fn first_to_second(case: &Case, obs: &mut Obs) -> PropResult {
+	let m = &case.m;
+	let q = to_quill::<2, Ns>(m, case.order).map_err(|e| format!("harness: {e:#}"))?;
+	let inh_map: Inheritance = case.inh.iter().cloned().collect();
+	let provider = prov(&case.inh)?;
+	let ra = q.remapper_a_first_to_second().map_err(|e| format!("remapper_a_first_to_second failed: {e:#}"))?;
+	let rb = q.remapper_b_first_to_second(&provider).map_err(|e| format!("remapper_b_first_to_second failed: {e:#}"))?;
+	let reference = RefRemapper::new(m, 0, 1, &inh_map);
+	for c in m.classes.values() {
+		for col in 0..2 {
+			let Some(name) = &c.names[col] else { continue };
+			let cn = class_name(name).map_err(|e| format!("harness: {e:#}"))?;
+			let exp = reference.map_class(name);
+			for (which, got) in [("remapper_a_first_to_second", ra.map_class(&cn)), ("remapper_b_first_to_second", rb.map_class(&cn))] {
+				let got = got.map_err(|e| format!("{which}.map_class({name}) failed: {e:#}"))?;
+				if got.as_inner() != exp.as_str() {
+					return Err(format!("{which}.map_class({name}) = {got}, expected {exp}\nmappings = {m:?}"));
+				}
+			}
+		}
+	}
+	obs.label("first_to_second_constructors");
+	Ok(())
+}
+
 fn dispatch(case: &Case, obs: &mut Obs) -> PropResult {
 	match case.m.n() {
-		2 => check::<2>(case, obs),
+		2 => {
+			first_to_second(case, obs)?;
+			check::<2>(case, obs)
+		}
 		3 => check::<3>(case, obs),
 		4 => check::<4>(case, obs),
 		n => Err(format!("harness: unsupported namespace count {n}")),
